@@ -250,6 +250,7 @@ func c15LockText(l *chart.Lock) string {
 
 type c15Snap struct {
 	Name      string
+	Version   string
 	API       string
 	Meta      string
 	HasValues bool
@@ -269,6 +270,7 @@ func c15SnapOf(c *chart.Chart) *c15Snap {
 	s.Name = c.Name()
 	if c.Metadata != nil {
 		s.API = c.Metadata.APIVersion
+		s.Version = c.Metadata.Version
 	}
 	s.Meta = c15MetaText(c.Metadata)
 	for _, f := range c.Raw {
@@ -364,19 +366,24 @@ func c15SortedKeys(m map[string]string) []string {
 // c15Compare lists the differences between the expected and the obtained chart. leg names the route the obtained
 // chart took (it becomes part of every signature); at is the position in the dependency tree.
 func c15Compare(want, got *c15Snap, leg, at string, out *[]c15Diff) {
+	// unexplained differences are named by what differs and the leg; differences whose shape identifies a specific
+	// cause (rank 1) get one signature for that cause, whatever leg showed it
 	add := func(rank int, what, class, detail string) {
 		sig := "C15:" + what + "/" + leg
 		if class != "" {
 			sig += "/" + class
 		}
-		*out = append(*out, c15Diff{Sig: sig, Detail: "at " + at + ": " + detail, Rank: rank})
+		if rank == 1 {
+			sig = "C15:" + what + "/" + class
+		}
+		*out = append(*out, c15Diff{Sig: sig, Detail: "[" + leg + "] at " + at + ": " + detail, Rank: rank})
 	}
 	content := func(kind, name, w, g string) {
 		if w == g {
 			return
 		}
 		if strings.HasPrefix(w, c15BOM) && w[len(c15BOM):] == g {
-			add(1, "content-differs", "leading-utf8-bom-removed", fmt.Sprintf("%s %q: expected %s, got the same without its first three bytes EF BB BF", kind, name, c15Q(w)))
+			add(1, "content-differs", "leading-utf8-bom-removed-on-load", fmt.Sprintf("%s %q: expected %s, got the same without its first three bytes EF BB BF", kind, name, c15Q(w)))
 			return
 		}
 		add(0, kind+"-content-differs", "", fmt.Sprintf("%q: expected %s, got %s", name, c15Q(w), c15Q(g)))
@@ -388,7 +395,7 @@ func c15Compare(want, got *c15Snap, leg, at string, out *[]c15Diff) {
 		if strings.Contains(want.Meta, "\u0085") && !strings.Contains(got.Meta, "\u0085") {
 			// U+0085 (NEXT LINE) is a line break to a YAML 1.1 reader; the only strings that can still hold it after
 			// validation are the unsanitised ones (annotations, import-values)
-			add(1, "metadata-differs", "string-with-U+0085-next-line", fmt.Sprintf("expected %s, got %s", want.Meta, got.Meta))
+			add(1, "string-differs", "U+0085-next-line-folded-when-written", "metadata: "+fmt.Sprintf("expected %s, got %s", want.Meta, got.Meta))
 		} else {
 			add(0, "metadata-differs", "", fmt.Sprintf("expected %s, got %s", want.Meta, got.Meta))
 		}
@@ -423,7 +430,7 @@ func c15Compare(want, got *c15Snap, leg, at string, out *[]c15Diff) {
 		case want.Lock == "<none>":
 			add(0, "lock-appeared", "", "got "+got.Lock)
 		case strings.Contains(want.Lock, "\u0085") && !strings.Contains(got.Lock, "\u0085"):
-			add(1, "lock-differs", "string-with-U+0085-next-line", fmt.Sprintf("expected %s, got %s", want.Lock, got.Lock))
+			add(1, "string-differs", "U+0085-next-line-folded-when-written", "lock: "+fmt.Sprintf("expected %s, got %s", want.Lock, got.Lock))
 		default:
 			add(0, "lock-differs", "", fmt.Sprintf("expected %s, got %s", want.Lock, got.Lock))
 		}
@@ -608,4 +615,96 @@ func c15NameClass(n string) string {
 		return "unclear"
 	}
 	return "valid"
+}
+
+// ---------------------------------------------------------------------------------------------------------------
+// what a saved chart must hold on disk, byte for byte (the re-encoded Chart.yaml / Chart.lock are only located)
+
+// c15WantBytes lists the entries below prefix that carry file content unchanged: name -> bytes.
+func c15WantBytes(want *c15Snap, prefix string, out map[string]string) {
+	if want.HasValues {
+		out[prefix+"values.yaml"] = want.RawValues
+	}
+	if want.HasSchema {
+		out[prefix+"values.schema.json"] = want.Schema
+	}
+	for n, d := range want.Templates {
+		out[prefix+n] = d
+	}
+	for n, d := range want.Files {
+		out[prefix+n] = d
+	}
+}
+
+// c15WrittenDiffs compares the entries found (name -> bytes) with the expected ones. reencoded lists the names that
+// must exist but whose bytes are not compared; optional lists names that may exist.
+func c15WrittenDiffs(leg string, want map[string]string, reencoded, optional map[string]bool, got map[string]string, out *[]c15Diff) {
+	for _, n := range c15SortedKeys(want) {
+		g, ok := got[n]
+		switch {
+		case !ok:
+			*out = append(*out, c15Diff{Sig: "C15:written-entry-missing/" + leg, Detail: fmt.Sprintf("[%s] %q (%d bytes) was not written; written: %q", leg, n, len(want[n]), c15SortedKeys(got))})
+		case g != want[n]:
+			*out = append(*out, c15Diff{Sig: "C15:written-bytes-differ/" + leg, Detail: fmt.Sprintf("[%s] %q: chart holds %s, written %s", leg, n, c15Q(want[n]), c15Q(g))})
+		}
+	}
+	var rn []string
+	for n := range reencoded {
+		rn = append(rn, n)
+	}
+	sort.Strings(rn)
+	for _, n := range rn {
+		if _, ok := got[n]; !ok {
+			*out = append(*out, c15Diff{Sig: "C15:written-entry-missing/" + leg, Detail: fmt.Sprintf("[%s] %q was not written; written: %q", leg, n, c15SortedKeys(got))})
+		}
+	}
+	for _, n := range c15SortedKeys(got) {
+		if _, ok := want[n]; ok || reencoded[n] || optional[n] {
+			continue
+		}
+		*out = append(*out, c15Diff{Sig: "C15:written-entry-unexpected/" + leg, Detail: fmt.Sprintf("[%s] %q = %s", leg, n, c15Q(got[n]))})
+	}
+}
+
+// c15ArchiveWant: the entries of the archive Save must write for want (root directory = chart name; subcharts unpacked
+// below charts/<their name>/).
+func c15ArchiveWant(want *c15Snap, prefix string, bytesOut map[string]string, reenc map[string]bool) {
+	c15WantBytes(want, prefix, bytesOut)
+	reenc[prefix+"Chart.yaml"] = true
+	if want.Lock != "<none>" && want.API == chart.APIVersionV2 {
+		reenc[prefix+"Chart.lock"] = true
+	}
+	for _, n := range c15SortedDeps(want) {
+		c15ArchiveWant(want.Deps[n], prefix+"charts/"+n+"/", bytesOut, reenc)
+	}
+}
+
+func c15SortedDeps(s *c15Snap) []string {
+	var dn []string
+	for n := range s.Deps {
+		dn = append(dn, n)
+	}
+	sort.Strings(dn)
+	return dn
+}
+
+// c15ReadTree reads every regular file below root: slash-separated relative name -> bytes.
+func c15ReadTree(root string) (map[string]string, error) {
+	out := map[string]string{}
+	err := filepath.Walk(root, func(p string, fi os.FileInfo, err error) error {
+		if err != nil {
+			return err
+		}
+		if fi.IsDir() {
+			return nil
+		}
+		rel, _ := filepath.Rel(root, p)
+		b, err := os.ReadFile(p)
+		if err != nil {
+			return err
+		}
+		out[filepath.ToSlash(rel)] = string(b)
+		return nil
+	})
+	return out, err
 }
